@@ -465,6 +465,20 @@ def _(w, e):
     need(w, e["on"]).pop(e["key"])
 
 
+@op("rename_nth")
+def _(w, e):
+    """Rename the k-th instance / cable / port / definition of a netlist (in containment order): an edit of a netlist
+    whose parts have no handles of their own (it was read from a file)."""
+    n = need(w, e["on"])
+    defs = [d for lib in n.libraries for d in lib.definitions]
+    pool = {"definition": defs, "instance": [c for d in defs for c in d.children],
+            "cable": [c for d in defs for c in d.cables], "port": [p for d in defs for p in d.ports]}[e["kind"]]
+    pool = [x for x in pool if x.name is not None]
+    if not pool:
+        raise Skip("nothing to rename")
+    pool[e["k"] % len(pool)].name = e["v"]
+
+
 # -- clone --------------------------------------------------------------------------
 def owned_walk(root):
     """Containment-tree walk used to give handles to the parts of a new object."""
